@@ -107,6 +107,12 @@ def unconfirmed(b):
         cands = [m for m, w in gone.items() if set(byname[nm]) <= set(w)]
         if len(cands) == 1:
             conf[nm] = gone.pop(cands[0])
+    # a local of a helper that is read at its call site (facts: extracted helper): code that moved out of this function keeps the
+    # writers confirmed for this function — `let mut v = ..collect(); v.sort_by(..); v` extracted out of `finish` is the same accumulation
+    moved_writers = set(w for ws in CONFIRMED.get(b.name, {}).values() for w in ws)
+    for nm in sorted(byname):
+        if nm not in conf and nm in getattr(b, "inlined_local_names", ()) and set(byname[nm]) <= moved_writers:
+            conf[nm] = list(byname[nm])
     for l in range(1, len(b.locals)):   # by-value parameters included: `fn f(mut self) { self.v.clear(); .. }`
         nm = b.debug_names.get(l) or "<temp>"
         extra = sorted(set(byname.get(nm, [])) - set(conf.get(nm, [])))
